@@ -39,8 +39,15 @@ MSG_FNS = r'^ZmqMessage::|ZmqMessage as '
 
 PROPS = {
     'C01': {
-        'units': ['codec'],
+        'units': ['codec', 'message', 'pubsub', 'reqrep', 'routing', 'sub'],
         'scope': [
+            # a message IS its frame sequence: every ZmqMessage operation against the Seq view (src/message.rs)
+            ('message', r'^ZmqMessage::|ZmqMessage as ', A, None),
+            # the READY a socket emits names its own type: each backend's socket_type(), and the constructor that fixes it
+            ('pubsub', r'^(PubSocketBackend|XPubSocketBackend)::socket_type$', A, None),
+            ('reqrep', r'^(ReqSocketBackend|RepSocketBackend)::socket_type$', A, None),
+            ('routing', r'^GenericSocketBackend::(socket_type|with_options)$|^(RouterSocket|DealerSocket|PushSocket|PullSocket)::with_options$', A, None),
+            ('sub', r'^SubSocketBackend::(socket_type|with_options)$|^SubSocket::with_options$', A, None),
             ('codec', r'^encode_frame$', A, None),
             ('codec', r'^ZmqCodec::encode$', A, None),
             ('codec', r'^ZmqCodec::decode$', F, r'^(?!bm_reserved)'),
@@ -60,8 +67,12 @@ PROPS = {
         'not_covered': [],
     },
     'C02': {
-        'units': ['codec'],
+        'units': ['codec', 'handshake', 'routing'],
         'scope': [
+            # the hand-over: each handshake step reads exactly ONE item (whatever arrived with it stays buffered in the
+            # reader), the framed reader is handed on whole (into_parts is the identity) and is what gets registered
+            ('handshake', r'^greet_exchange$|^ready_exchange$|^util::peer_connected$|^FramedIo::into_parts$', F, None),
+            ('routing', r'^FramedIo::into_parts$|^GenericSocketBackend::peer_connected$', F, None),
             ('codec', r'^ZmqCodec::decode$', F, r'^(?!bm_reserved)'),
             ('codec', r'^ZmqCodec::new$', A, None),
             ('codec', r'^ZmqMessage::push_back$|ZmqMessage as From<Bytes>', A, None),
@@ -72,9 +83,18 @@ PROPS = {
         'not_covered': [],
     },
     'C04': {
-        'units': ['handshake', 'codec'],
+        'units': ['handshake', 'codec', 'pubsub', 'reqrep', 'routing', 'sub'],
         'scope': [
+            # the READY a socket emits names its own type: each backend's socket_type(), and the constructor that fixes it
+            ('pubsub', r'^(PubSocketBackend|XPubSocketBackend)::socket_type$', A, None),
+            ('reqrep', r'^(ReqSocketBackend|RepSocketBackend)::socket_type$', A, None),
+            ('routing', r'^GenericSocketBackend::(socket_type|with_options)$|^(RouterSocket|DealerSocket|PushSocket|PullSocket)::with_options$', A, None),
+            ('sub', r'^SubSocketBackend::(socket_type|with_options)$|^SubSocket::with_options$', A, None),
+            # a peer is registered exactly once, under the identity the handshake produced
+            ('routing', r'^GenericSocketBackend::peer_connected$', F, None),
+            ('reqrep', r'^(ReqSocketBackend|RepSocketBackend)::peer_connected$', F, None),
             ('codec', r'ZmqGreeting as TryFrom', A, None),
+            ('codec', r'ZmqCommand as TryFrom', A, None),
             ('handshake', r'^SocketType::compatible$', A, None),
             ('handshake', r'^SocketType::as_str$|SocketType as TryFrom', A, None),
             ('handshake', r'PeerIdentity as TryFrom<Bytes>|PeerIdentity as Default|^PeerIdentity::new$', A, None),
@@ -127,10 +147,11 @@ PROPS = {
         'units': ['reqrep'],
         'scope': [
             ('reqrep', r'^ReqSocket::send$', A, None),
-            ('reqrep', r'^ReqSocket::recv$', {'post'}, None),
+            # lock-step also across an abandoned recv: the await-point invariants (the marker is cleared only after the read)
+            ('reqrep', r'^ReqSocket::recv$', {'post', 'assert'}, None),
             ('reqrep', r'^ReqSocket::recv$', S, None),
             ('reqrep', r'^RepSocket::send$', A, None),
-            ('reqrep', r'^RepSocket::recv$', {'post', 'inv-entry', 'inv-end'}, None),
+            ('reqrep', r'^RepSocket::recv$', {'post', 'inv-entry', 'inv-end', 'assert'}, None),
             ('reqrep', r'^ReqSocketBackend::|^RepSocketBackend::peer_(connected|disconnected)$', A, None),
             ('reqrep', r'^tmpl::lemma_first_live', A, None),
         ],
@@ -163,7 +184,7 @@ PROPS = {
         'units': ['routing', 'reqrep'],
         'scope': [
             ('routing', r'^GenericSocketBackend::send_round_robin$', A, None),
-            ('routing', r'^GenericSocketBackend::peer_connected$', A, None),
+            ('routing', r'^GenericSocketBackend::peer_(connected|disconnected)$', A, None),
             ('routing', r'^DealerSocket::send$|^PushSocket::send$', A, None),
             ('routing', r'^tmpl::lemma_(first_live|rotation)', A, None),
             ('reqrep', r'^ReqSocket::send$', A, None),
@@ -184,6 +205,8 @@ PROPS = {
             ('fairqueue', r'^FairQueue::poll_next$|^QueueInner::(insert|remove)$|^StreamWaker::wake_by_ref$', A, None),
             ('reqrep', r'^ReqSocket::recv$', {'assert'}, None),
             ('reqrep', r'^RepSocket::recv$', {'assert', 'inv-entry', 'inv-end'}, None),
+            # what an abandoned recv still owes must survive the calls made in between: a refused send changes nothing
+            ('reqrep', r'^ReqSocket::send$|^RepSocket::send$', F, None),
             ('routing', r'^(RouterSocket|DealerSocket|PullSocket|SubSocket|XPubSocket)::recv$', {'assert', 'inv-entry', 'inv-end'}, None),
         ],
         'kani': {},
@@ -220,12 +243,16 @@ PROPS = {
         'not_covered': ['that subscription messages of one peer are processed in per-connection order, and the race between the PUB reader task and send (concurrency)', 'per-peer ORDER of the subscription messages XPUB hands to the application (that is the fair queue / decoder: C05, C02)', 'what happens on the Err path of send (a fatal writer error aborts the traversal: subscribers not yet visited get nothing)'],
     },
     'C13': {
-        'units': ['sub'],
+        'units': ['sub', 'pubsub'],
         'scope': [
+            # the RFC 29 frame itself (tag octet + topic): verified body (unit sub uses it through this contract)
+            ('pubsub', r'^SubSocketBackend::create_subs_message$', A, None),
             # subscribe / unsubscribe: the set changes, every registered peer is attempted, `agrees` is preserved
             ('sub', r'^SubSocket::(subscribe|unsubscribe|process_subs)$', A, None),
             # late joiners: told the whole current set, then registered (the `.unwrap()` is modelled as return-only-if-Ok)
             ('sub', r'^SubSocketBackend::peer_connected$', A, None),
+            # a failed peer is forgotten - that one only -, and a new socket starts with the invariant
+            ('sub', r'^SubSocketBackend::peer_disconnected$|^SubSocket::with_options$|^SubSocketBackend::with_options$', A, None),
             ('sub', r'^tmpl::lemma_(told|announced|tagged|tags)', A, None),
         ],
         'kani': {},
@@ -249,6 +276,8 @@ PROPS = {
             ('reqrep', r'^(ReqSocket|RepSocket)::recv$', S, None),
             ('routing', r'^(RouterSocket|DealerSocket|PullSocket|SubSocket|XPubSocket)::recv$', S, None),
             ('pubsub', r'^XPubSocket::recv$', S, None),
+            # a subscription a peer sent is later compared with what the application publishes: no slice out of range
+            ('pubsub', r'^(PubSocket|XPubSocket)::send$', S, None),
             # the PUB / XPUB subscription-message parser: octets from a subscriber
             ('pubsub', r'^(PubSocketBackend|XPubSocketBackend)::message_received$', A, None),
             ('pubsub', r'^ZmqMessage::into_vec$', A, None),
